@@ -30,6 +30,7 @@ func runC15(c *Ctx) {
 	c15Loops(c)
 	c15IndexResults(c)
 	c15TypeAsserts(c)
+	parserHelperRules(c, "C15")
 }
 
 // reviewedBounds: function + expression -> why the access is in range. The
